@@ -18,7 +18,7 @@ RULE = ("seven full products over projection x sky location x image shape (squar
         "centre 3.5+ px off each side, three far-off sky positions) x size x PA x sign; 'cat' ALL 2- and 3-subsets of the "
         "17 position classes x 16 attribute rotations, and for each catalogue all non-empty subsets, all set partitions of "
         "every subset and all orderings; 'loop' blind finder -> catalogue file -> make_residual on 1-2 isolated sources "
-        "x size x PA x sign x table format; 'addsub' add-then-subtract through files; 'mask' 1-2 positive sources x "
+        "x size x PA x sign x sub-pixel phase {on a pixel, between four pixels} x table format; 'addsub' add-then-subtract through files; 'mask' 1-2 positive sources x "
         "frac/sigma thresholds; 'colmap' all 64 subsets of the six renamable columns x table format.  The expected image "
         "is rendered by an independent sky-plane Gaussian model on an independent WCS.  non-trivial = at least one source "
         "centred on the image (additivity: at least two); distinct = distinct case")
@@ -30,7 +30,10 @@ ASSUMPTIONS = ["the expected model is rendered by mc/oracles/skygauss.py (gnomon
                "tolerance for sums of sources is 1e-4 of the sum of the absolute peaks; 'float rounding' means 8 float32 ulp "
                "of the sum of the absolute peaks (plus the largest data value for add-then-subtract)",
                "closed loop: 'the peak' is read as the brightest absolute peak in the image; catalogues are passed through the "
-               "double-precision table formats csv/vot/tab only (FITS tables are single precision by design, see C18)",
+               "double-precision table formats csv/vot/tab only (FITS tables are single precision by design, see C18); the finder "
+               "runs with a forced rms of 0.01 x the faintest |peak|, innerclip 5, outerclip 4, docov=False; a closed-loop failure "
+               "is attributed to the catalogue (class loop_finder) when AeRes' model of the extracted catalogue agrees with the "
+               "independent rendering of that same catalogue, otherwise to AeRes (class loop_residual)",
                "mask mode is decided for positive sources only: for a negative source the reading of 'exceeds its threshold' "
                "is ambiguous; pixels whose expected model value lies within 1e-4 of the peak of the threshold are not decided; "
                "off-image sources in mask catalogues are the far-off ones only (their model is zero on the image)",
@@ -79,7 +82,8 @@ def axes(tier, seed):
                 cat=dict(combos=combos(not q), positions="all 2- and 3-subsets of %d position classes" % len(ALL_POS),
                          attribute_rotation=list(range(0, 16, 4)) if q else list(range(16)),
                          inner="all non-empty subsets, all set partitions of each, all orderings"),
-                loop=dict(n_sources=["1", "2same", "2opp"], size_px=SIZES, pa=PAS[1::2] if q else PAS, sign=SIGNS,
+                loop=dict(n_sources=["1", "2opp"] if q else ["1", "2same", "2opp"], size_px=SIZES, pa=PAS[1::2] if q else PAS, sign=SIGNS,
+                          subpixel_phase=["centre on a pixel", "centre between four pixels"], forced_rms="0.01 x faintest |peak|",
                           format=FORMATS if not q else "rotated over " + repr(FORMATS)),
                 addsub=dict(catalogue=ADDSUB_CATS, rotation=[0, 5] if q else list(range(0, 16, 3)), format=FORMATS),
                 mask=dict(single=IN_POS + FAR_POS, pairs=MASK_PAIRS, size_px=SIZES, pa=PAS, mode=MASK_MODES, via=["make_model", "make_residual"]),
@@ -97,9 +101,10 @@ def cases(tier, seed):
         yield "colmap_prefix", dict(fmt=fmt)
     k = 0
     for proj, loc, sh in combos(True):
-        for n, si, pa, sign in itertools.product(["1", "2same", "2opp"], range(len(SIZES)), PAS[1::2] if q else PAS, SIGNS):
+        for n, si, pa, sign, phase in itertools.product(["1", "2opp"] if q else ["1", "2same", "2opp"], range(len(SIZES)),
+                                                        PAS[1::2] if q else PAS, SIGNS, ["pixel", "between"]):
             for fmt in ([FORMATS[k % 3]] if q else FORMATS):
-                yield "loop", dict(proj=proj, loc=loc, shape=sh, n=n, size=si, pa=pa, sign=sign, fmt=fmt)
+                yield "loop", dict(proj=proj, loc=loc, shape=sh, n=n, size=si, pa=pa, sign=sign, phase=phase, fmt=fmt)
             k += 1
     for proj, loc, sh in combos(True):
         for ci in range(len(ADDSUB_CATS)):
@@ -253,7 +258,7 @@ def compare_model(ctx, obs, hdr, shape, srcs, tag, sig, note):
         ctx.violation("%s: %d non-finite model pixels (%s)" % (tag, int(np.sum(~np.isfinite(obs))), sig), "nonfinite|" + sig)
         return False
     err = float(np.max(np.abs(obs - exp))) / tot
-    ctx.note_max(note, err)
+    ctx.note_max(note if err <= 1e-4 else note + "_in_violations", err)
     if err <= 1e-4:
         return True
     w = np.unravel_index(int(np.argmax(np.abs(obs - exp))), exp.shape)
@@ -419,25 +424,28 @@ def ev_loop(case, ctx):
     hdr, wh, shape = setup(case, ctx.seed)
     rows, cols = shape
     s1 = core.seed_shift(ctx.seed, 34, 1.0)
+    s2 = core.seed_shift(ctx.seed, 35, 1.0)
     si, pa, sign = case["size"], case["pa"], case["sign"]
+    # sub-pixel phase of the centres: on a pixel centre, or between four pixels (never an exact tie)
+    ph = (0.15 * s1, 0.10 * s2) if case["phase"] == "pixel" else (0.51 + 0.02 * s1, 0.505 + 0.02 * s2)
     a1, b1 = SIZES[si]
-    srcs = [skygauss.source_at_pixel(hdr, 0.31 * rows + s1, 0.35 * cols + 0.5 * s1, 1.0 * sign, a1, b1, pa + 2 * s1)]
+    srcs = [skygauss.source_at_pixel(hdr, int(0.31 * rows) + ph[0], int(0.35 * cols) + ph[1], 1.0 * sign, a1, b1, pa + 2 * s1)]
     if case["n"] != "1":
         a2, b2 = SIZES[1 - si]
         sign2 = sign if case["n"] == "2same" else -sign
-        srcs.append(skygauss.source_at_pixel(hdr, 0.69 * rows - 0.7 * s1, 0.66 * cols + s1, 0.6 * sign2, a2, b2,
+        srcs.append(skygauss.source_at_pixel(hdr, int(0.69 * rows) + ph[1], int(0.66 * cols) + ph[0], 0.6 * sign2, a2, b2,
                                              PAS[(PAS.index(pa) + 1) % 4] - s1))
     peak = max(abs(s["peak"]) for s in srcs)
+    rms = 0.01 * min(abs(s["peak"]) for s in srcs)
     img = skygauss.render(hdr, shape, srcs)
-    sig = "loop:%s,n=%s,size=%d,pa=%g,sign=%+d,%s" % (combo_sig(case), case["n"], si, pa, sign, case["fmt"])
+    sig = "size=%d,phase=%s,loop:%s,n=%s,pa=%g,sign=%+d,%s" % (si, case["phase"], combo_sig(case), case["n"], pa, sign, case["fmt"])
     f, r, m = _scratch("c14img.fits", "c14res.fits", "c14mod.fits")
     scenes.write_image(f, hdr, img)
     ctx.count("loop")
     ctx.nontrivial(sig)
     cat = None
     try:
-        out = scenes.finder().find_sources_in_image(f, rms=0.01 * min(abs(s["peak"]) for s in srcs), cores=1, docov=False,
-                                                    innerclip=5, outerclip=4)
+        out = scenes.finder().find_sources_in_image(f, rms=rms, cores=1, docov=False, innerclip=5, outerclip=4)
         ctx.outcome("loop:found=%d/%d" % (len(out), len(srcs)))
         if len(out) == 0:
             ctx.violation("the finder returned no source for %d injected (%s)" % (len(srcs), sig), "loop_nofind|" + sig)
@@ -453,13 +461,30 @@ def ev_loop(case, ctx):
     finally:
         _cleanup([f, r, m] + ([cat] if cat else []))
     worst = float(np.nanmax(np.abs(res))) / peak if np.all(np.isfinite(res)) else np.inf
-    ctx.note_max("loop_residual_over_peak", worst if np.isfinite(worst) else 1e30)
+    ctx.note_max("loop_residual_over_peak" if worst < 1e-3 else "loop_residual_over_peak_in_violations", worst if np.isfinite(worst) else 1e30)
     if not worst < 1e-3:
         w = np.unravel_index(int(np.nanargmax(np.abs(res))), res.shape) if np.any(np.isfinite(res)) else None
-        ctx.violation("residual after subtracting the extracted catalogue is %.4g of the peak at pixel %r; injected %s, extracted %s (%s)" % (
-            worst, w, [(round(s["ra"], 6), round(s["dec"], 6), s["peak"], s["a"] * 3600, s["b"] * 3600, s["pa"]) for s in srcs],
-            [(round(o.ra, 6), round(o.dec, 6), round(o.peak_flux, 5), round(o.a, 3), round(o.b, 3), round(o.pa, 2)) for o in out], sig),
-            "loop_residual|" + sig)
+        # whose fault: render the EXTRACTED catalogue independently; when AeRes' model file agrees with that, AeRes drew
+        # what the catalogue says and the catalogue itself does not describe the image
+        ext = [dict(ra=float(o.ra), dec=float(o.dec), peak=float(o.peak_flux), a=float(o.a) / 3600, b=float(o.b) / 3600, pa=float(o.pa)) for o in out]
+        faithful = bool(np.all(np.isfinite(mod))) and float(np.max(np.abs(mod - skygauss.render(hdr, shape, ext)))) <= 1e-4 * peak
+        notes = []
+        img32 = np.abs(np.asarray(img, dtype=np.float32).astype(np.float64))
+        for s in srcs:
+            near = [o for o in out if scenes.sky_sep_pix(hdr, o.ra, o.dec, s["ra"], s["dec"]) < 2]
+            r0, c0 = int(round(s["row"])), int(round(s["col"]))
+            pix = float(np.max(img32[max(r0 - 2, 0):r0 + 3, max(c0 - 2, 0):c0 + 3]))
+            cap = 1.05 * pix + 5 * rms
+            for o in near:
+                notes.append("injected peak %+.6f FWHM %.3fx%.3f\" pa %.2f -> extracted peak %+.6f FWHM %.3fx%.3f\" pa %.2f flags %d "
+                             "(brightest pixel %.6f; 1.05 x brightest pixel + innerclip x rms = %.6f%s)" % (
+                                 s["peak"], s["a"] * 3600, s["b"] * 3600, s["pa"], o.peak_flux, o.a, o.b, o.pa, o.flags, pix, cap,
+                                 " = |extracted peak|: the fit sits on its amplitude bound" if abs(abs(o.peak_flux) - cap) < 1e-6 else ""))
+        ctx.violation("residual after subtracting the extracted catalogue is %.4g of the peak at pixel %r; AeRes' model of the extracted catalogue %s "
+                      "the independent rendering of that catalogue; %d extracted for %d injected: %s (%s)" % (
+                          worst, tuple(int(x) for x in w) if w is not None else None, "agrees with" if faithful else "DIFFERS from",
+                          len(out), len(srcs), "; ".join(notes), sig), ("loop_finder|" if faithful else "loop_residual|") + sig)
+        ctx.outcome("loop:catalogue_wrong" if faithful else "loop:residual")
     d = float(np.max(np.abs(res + mod - np.asarray(img, dtype=np.float32).astype(np.float64))))
     if not d <= 8 * EPS32 * 2 * peak:
         ctx.violation("model file + residual file differ from the input image by %.4g (%s)" % (d, sig), "loop_files|" + sig)
